@@ -52,7 +52,7 @@ func getMsgKey(q *dns.Msg) string {
 	)
 
 	question := q.Question[0]
-	buf := make([]byte, 1+2+1+len(question.Name)) // bits + qtype + qname length + qname
+	buf := make([]byte, 1+2+2+1+len(question.Name)) // bits + qtype + qclass + qname length + qname
 	b := byte(0)
 	// RFC 6840 5.7: The AD bit in a query as a signal
 	// indicating that the requester understands and is interested in the
@@ -67,10 +67,12 @@ func getMsgKey(q *dns.Msg) string {
 		b = b | doBit
 	}
 	buf[0] = b
-	buf[1] = byte(question.Qtype << 8)
+	buf[1] = byte(question.Qtype >> 8)
 	buf[2] = byte(question.Qtype)
-	buf[3] = byte(len(question.Name))
-	copy(buf[4:], question.Name)
+	buf[3] = byte(question.Qclass >> 8)
+	buf[4] = byte(question.Qclass)
+	buf[5] = byte(len(question.Name))
+	copy(buf[6:], question.Name)
 	return utils.BytesToStringUnsafe(buf)
 }
 
